@@ -99,9 +99,10 @@ def mc_module(bodies):
     return ("---- MODULE MC_Undefined ----\nEXTENDS Undefined\nMCBodies ==\n  [ " + body + " ]\n====\n")
 
 
-def cfg(depth, deep_others):
+def cfg(depth, deep_others, emit=True):
     return f"""CONSTANTS
   MaxDepth = {depth}
+  Emit = {"TRUE" if emit else "FALSE"}
   DeepOthers = {{{", ".join(core.tla_str(o) for o in deep_others)}}}
   Bodies <- MCBodies
 SPECIFICATION Spec
@@ -253,6 +254,7 @@ TEMPLATE["eq"] = TEMPLATE["eq"] + [("r:in_list", "{{ <E> in [<O>] }}", {"true": 
                                    ("l:if", "{% if <E> == <O> %}True{% else %}False{% endif %}", {"true": "True", "false": "False"})]
 TEMPLATE["ne"] = TEMPLATE["ne"] + [("r:not_in_list", "{{ <E> not in [<O>] }}", {"true": "True", "false": "False"}),
                                    ("l:not_in_tuple", "{{ <O> not in (<E>,) }}", {"true": "True", "false": "False"})]
+SEQUENCE_FORMS = ("eq", "ne")
 # the async iteration protocol is what an async environment uses for the same syntax
 TEMPLATE_ASYNC_ONLY = {"aiter": TEMPLATE["iter"]}
 
@@ -278,6 +280,7 @@ class World:
         self.aenv = jinja2.Environment(undefined=cls, enable_async=True)
         self.direct = direct_realisations(self)
         self.tcache = {}
+        self.ecache = {}
 
     def make(self, origin, env=None):
         env = env or self.env
@@ -295,18 +298,26 @@ class World:
 
     def other(self, kind):
         if kind == "undef":
-            return self.env.compile_expression(OTHER_VAR, undefined_to_none=False)()
+            return self.expression(self.env, OTHER_VAR)()
         if kind == "noelse":
             # evaluated in the environment under test, whatever its undefined type
-            return self.env.compile_expression(NOELSE_SRC, undefined_to_none=False)()
+            return self.expression(self.env, NOELSE_SRC)()
         if kind in FOREIGN:
-            return foreign_env(FOREIGN[kind]).compile_expression(OTHER_VAR, undefined_to_none=False)()
+            return self.expression(foreign_env(FOREIGN[kind]), OTHER_VAR)()
         return {"int": 42, "float": 1.5, "str": "s", "list": [1], "none": None}.get(kind)
 
-    def context(self, env):
+    def expression(self, env, src):
+        """The compiled expression `src` of `env` (compiled once); calling it evaluates it afresh."""
+        key = (id(env), src)
+        ex = self.ecache.get(key)
+        if ex is None:
+            ex = self.ecache[key] = env.compile_expression(src, undefined_to_none=False)
+        return ex
+
+    def context(self, env, other=None):
         ctx = {"o": Holder(), "d": {}, "h": env.undefined(hint=self.hint)}
-        for kind, base in FOREIGN.items():
-            ctx[OTHER_SRC[kind]] = self.other(kind)
+        if other in FOREIGN:
+            ctx[OTHER_SRC[other]] = self.other(other)
         return ctx
 
 
@@ -509,6 +520,8 @@ def run_direct(ck, W, case, only=None):
     for via, fn in W.direct[case["op"]]:
         if case["op"] in BIN and via.split(":")[0] != case["side"]:
             continue
+        if case["op"] in SEQUENCE_FORMS and ":" in via and case["path"]:
+            continue  # equality through sequence containment: for the undefined a missing thing gives directly
         if only and via != only:
             continue
         u0 = W.make(case["origin"])
@@ -548,6 +561,8 @@ def template_forms(case, is_async):
     for via, src, tmap in forms:
         if op in BIN and via.split(":")[0] != case["side"]:
             continue
+        if op in SEQUENCE_FORMS and ":" in via and case["path"]:
+            continue
         s = src.replace("<E>", E).replace("<O>", OTHER_SRC.get(case["other"], ""))
         out.append((via, s, tmap))
     return out
@@ -561,7 +576,7 @@ def run_templates(ck, W, case, is_async, entry="auto", only=None):
             continue
         env = W.aenv if is_async else W.env
         t = template(W, is_async, src)
-        ctx = W.context(env)
+        ctx = W.context(env, case["other"])
         del W.handler.records[:]
         try:
             if is_async and entry != "render":
@@ -606,7 +621,7 @@ def run(ck):
         ck.require_coverage(r, ["Access", "Final"])
 
     # code->spec: do the real class bodies, dispatched by Python's protocol rules, give the table?
-    r2 = core.run_tlc(PID, "MC_Undefined", cfg(1, deep).replace("INVARIANT TypeOK\n", "INVARIANT C21_BodiesRefineTable\n", 1),
+    r2 = core.run_tlc(PID, "MC_Undefined", cfg(1, deep, emit=False).replace("INVARIANT TypeOK\n", "INVARIANT C21_BodiesRefineTable\n", 1),
                       extra_modules=[gen / "MC_Undefined.tla"], name="bodies", workers=1)
     ck.tlc_runs.append({"spec": "Undefined: real class bodies refine the table", "distinct_states": r2.distinct,
                         "states_generated": r2.generated, "depth": r2.depth, "wall_s": round(r2.wall, 2)})
@@ -667,6 +682,8 @@ def run(ck):
         "'s' % undefined (str formatting decides, the undefined operand is never asked)",
         "pickling instances of the function-local class made by make_logging_undefined",
         "<, +, ... (the operations that simply fail) with a second undefined of a *different* class",
+        "v == s / v != s with a strict undefined s to the right of a non-strict undefined v of a type StrictUndefined "
+        "does not derive from (Python asks v only; s == v and plain-Undefined == s are covered)",
         "operators Undefined does not define (@, <<, &, divmod, abs, round, ~x, index): TypeError from Python itself",
         "int/float *filters* on undefined (filter documentation, C23)",
         "undefined values whose exception class is not UndefinedError (sandbox unsafe_undefined)",
